@@ -121,6 +121,24 @@ func (c *Ctx) Oracle(format string, a ...any) {
 	c.stats.OracleFailures++
 }
 
+// ReplaySeed supports engines whose traces are regenerated from the PRNG: it finds the first
+// `T <prefix>-<seed>-<i>` line of the replay file and re-seeds the context so that generating
+// i+1 traces reproduces that trace (all random choices come from c.Rng in sequence).
+func (c *Ctx) ReplaySeed(prefix string) bool {
+	for _, l := range c.Replay {
+		var seed int64
+		var idx int
+		if n, _ := fmt.Sscanf(l, "T "+prefix+"-%d-%d", &seed, &idx); n == 2 {
+			c.Seed = seed
+			c.Rng = rand.New(rand.NewSource(seed))
+			c.N = idx + 1
+			c.Replay = nil
+			return true
+		}
+	}
+	return false
+}
+
 // ActorNat prints an actor id the way the Lean model stores it.
 func ActorNat(a time.ActorID) string { return new(big.Int).SetBytes(a[:]).String() }
 
